@@ -336,3 +336,11 @@ R.SPEC["BAD_KIND_TEXT"] = PyC(_BAD)
 _fo = L.const("en_fo")
 ax("func-names-str", L.FA(_fo, z3.And(L.is_str(L.fn("func_module", L.V, L.V)(_fo)), L.is_str(L.fn("func_qualname", L.V, L.V)(_fo))), [L.fn("func_module", L.V, L.V)(_fo)]))
 ax("func-names-str2", L.FA(_fo, z3.And(L.is_str(L.fn("func_module", L.V, L.V)(_fo)), L.is_str(L.fn("func_qualname", L.V, L.V)(_fo))), [L.fn("func_qualname", L.V, L.V)(_fo)]))
+
+# ---------------------------------------------------------------- structural equality preserves what the later stages need (assumed: each is a theorem by
+# induction over teq, which the solver cannot do; the bounded tier checks mem / well-formedness on decoded types directly)
+from theories import values_th as _VT2
+from theories import rewriters as _RW2
+_v = L.const("en_v")
+ax("mem-respects-teq", L.FA([_v, t, u], z3.Implies(z3.And(teq(t, u), _VT2.mem(_v, t)), _VT2.mem(_v, u)), [(teq(t, u), _VT2.mem(_v, t))]))
+ax("wf-respects-teq", L.FA([t, u], z3.Implies(z3.And(teq(t, u), _RW2.wf_rw(t), t != TY.ELLIPSIS), z3.And(_RW2.wf_rw(u), u != TY.ELLIPSIS)), [(teq(t, u), _RW2.wf_rw(t))]))
